@@ -676,3 +676,106 @@ func init() {
 		},
 	})
 }
+
+// ---- C16-j: nobody waits for a goroutine that may be parked in a send only the waiter can take ----
+
+func fieldOfChanValue(v ssa.Value) *types.Var {
+	v = stripConv(v)
+	if u, ok := v.(*ssa.UnOp); ok && u.Op == token.MUL {
+		if fa, ok := u.X.(*ssa.FieldAddr); ok {
+			return structField(fa.X.Type(), fa.Field)
+		}
+	}
+	return nil
+}
+
+func init() {
+	register(&Rule{
+		ID: "C16-j", Template: "wait-for cycle (stop waits for a producer that waits for its consumer)",
+		Doc: "Stopping never deadlocks: in the pipeline packages, if a goroutine started by a method of a type delivers values with a plain blocking send on a channel kept in a field of that type (a channel handed out to the consumer), then no method of the type blocks on a receive from another field channel that only this goroutine closes or sends on (its completion signal). The consumer that calls Stop is the only one who could take the pending value — with a tick pending, Stop would wait for the goroutine and the goroutine for the caller of Stop.",
+		Min: 1,
+		Run: func(p *Program, r *RuleResult) error {
+			if _, err := p.SSAFunc("pkg/progress.(*SingleTracker).Stop"); err != nil {
+				return err
+			}
+			fns := p.FuncsInPkg("pkg/progress", "pkg/pbar", "pkg/diff", "pkg/merge", "pkg/ingest", "pkg/sorter")
+			r.Analysed = len(fns)
+			// goroutine bodies: closures launched with `go`
+			type gor struct {
+				fn        *ssa.Function
+				sendsOn   map[*types.Var]token.Pos
+				completes map[*types.Var]bool
+			}
+			var gors []gor
+			for _, fn := range fns {
+				for _, b := range fn.Blocks {
+					for _, in := range b.Instrs {
+						g, ok := in.(*ssa.Go)
+						if !ok {
+							continue
+						}
+						var body *ssa.Function
+						if mc, ok := g.Call.Value.(*ssa.MakeClosure); ok {
+							body, _ = mc.Fn.(*ssa.Function)
+						} else if sc := g.Call.StaticCallee(); sc != nil {
+							body = sc
+						}
+						if body == nil || len(body.Blocks) == 0 {
+							continue
+						}
+						x := gor{fn: body, sendsOn: map[*types.Var]token.Pos{}, completes: map[*types.Var]bool{}}
+						for _, b2 := range body.Blocks {
+							for _, i2 := range b2.Instrs {
+								switch y := i2.(type) {
+								case *ssa.Send:
+									if f := fieldOfChanValue(y.Chan); f != nil {
+										x.sendsOn[f] = y.Pos()
+									}
+								case ssa.CallInstruction:
+									if isBuiltin(y, "close") && len(y.Common().Args) == 1 {
+										if f := fieldOfChanValue(y.Common().Args[0]); f != nil {
+											x.completes[f] = true
+										}
+									}
+								}
+							}
+						}
+						gors = append(gors, x)
+					}
+				}
+			}
+			n := 0
+			for _, fn := range fns {
+				for _, b := range fn.Blocks {
+					for _, in := range b.Instrs {
+						u, ok := in.(*ssa.UnOp)
+						if !ok || u.Op != token.ARROW {
+							continue
+						}
+						f := fieldOfChanValue(u.X)
+						if f == nil {
+							continue
+						}
+						for _, g := range gors {
+							if g.fn == fn || !g.completes[f] {
+								continue
+							}
+							for sf, pos := range g.sendsOn {
+								if sf == f {
+									continue
+								}
+								n++
+								r.bad(fmt.Sprintf("%s|waits-on %s", funcName(fn), f.Name()), p.Rel(u.Pos()), "no method waits for a goroutine that can be parked in a blocking send to the consumer",
+									fmt.Sprintf("%s blocks on <-%s, which only the goroutine %s closes; that goroutine delivers with a plain blocking send on %s (%s) and cannot finish while a value is pending — the caller of %s is the one who would have to receive it", funcName(fn), f.Name(), funcName(g.fn), sf.Name(), p.Rel(pos), fn.Name()))
+							}
+						}
+					}
+				}
+			}
+			if n == 0 {
+				r.ok("pipeline|no-wait-for-cycle", "", "no method waits for a goroutine that can be parked in a blocking send to the consumer")
+			}
+			return nil
+		},
+	})
+}
